@@ -321,6 +321,10 @@ static void derive(Params& P) {
   P.bases.push_back("nope");   // a base that does not parse: ada_parse_with_base returns the base's error
   P.bases.push_back("");       // empty base (does not parse either)
   P.menu = op_menu(P.umenu_thorough != 0, true);
+  // the C API takes (pointer, length): a value with an embedded NUL must reach the C++ setter whole (not be cut as a C string)
+  for (uint8_t op : {SET_PATHNAME, SET_SEARCH, SET_HASH, SET_USERNAME, SET_PASSWORD, SET_HOST, SET_HOSTNAME, SET_PORT, SET_PROTOCOL, SET_HREF})
+    P.menu.push_back({op, std::string("/a\0b/c", 6)});
+  P.menu.push_back({SET_PATHNAME, std::string("\0", 1)});
   P.PKs = {"a", "b", "", EACUTE};
   P.PVs = {"", "1", " &"};
   P.pinits = {"", "a=1&b=2&a=3", "?" EACUTE "=%41+&&=x&a"};
